@@ -286,6 +286,7 @@ class Gen:
         self.syms = set()
         self.beh = []
         self.susize = {}
+        self.frozen = set()      # aggregates that came in through include(): not completed here
         self.nfn = self.ngv = 0
 
     def res(self, t):
@@ -406,7 +407,7 @@ class Gen:
             self.td[n] = self.res(t)
         elif c < 6:
             key = self.tag()
-            if self.su.get((key[0], key[1]), False):
+            if self.su.get((key[0], key[1]), False) or (key[0], key[1]) in self.frozen:
                 return
             self.kind_of.setdefault(key[1], key[0])
             nf = r.randrange(1, 6)
@@ -640,7 +641,7 @@ def replay(ctx, obj):
             continue
         print("clause %s item %s class %r" % (clause, item, cls))
         ctx.violation(cls if cls else "%s:unexplained" % clause, "%s [%s]" % (CLAUSE.get(clause, clause), item), rp)
-    print("replayed: %s" % ("still violated" if v[1][0] else "accepted by the specification"))
+    print("replayed: %s" % ("still violated" if [x for x in v[1][0] if x[0] != "guard"] else "accepted by the specification"))
 
 
 def selftest(ctx):
